@@ -15,8 +15,9 @@ Two ties to the real code:
      a stored cursor the provider rejects, both storage backends; at quiescence the Lean monitors (driver layer
      `monc06`: c01 converged, c02 nothing lost, c03 one-sided mirror, c06r no re-transfer, c06a no artefacts).
 
-The known finding (need_walk is not persisted) is replayed exactly on the real engine and excluded from the random
-generators by construction."""
+Fixed findings (need_walk not persisted: two shapes; walk de-duplication ignoring existence) are replayed exactly on the
+real engine on every run (a reproduction is a regression = violation); since the repair, stops are generated anywhere,
+also between "cursor re-seeded" and "walk completed"."""
 import io
 import os
 import random
@@ -135,6 +136,7 @@ class EmWorld:
         orig_pe = em._process_event
         orig_upd = self.state.update
         orig_sud = self.state.storage_update_data
+        orig_sdt = self.state.storage_delete_tag
 
         def effect():
             if world.mode and world.mode[0] == "crash" and world.effects == world.mode[1]:
@@ -163,9 +165,14 @@ class EmWorld:
             effect()
             return orig_sud(tag, data)
 
+        def storage_delete_tag(tag):
+            effect()
+            return orig_sdt(tag)
+
         em._process_event = process_event
         self.state.update = update
         self.state.storage_update_data = storage_update_data
+        self.state.storage_delete_tag = storage_delete_tag
         self.em = em
 
     def stop(self):
@@ -377,6 +384,8 @@ def run_em_sequence(cfg, storage_kind, ops, rng):
                 continue
             if op == "PROVCUR":
                 op = "provcur %d" % rng.choice([-1, w.prov._latest_cursor, w.prov._latest_cursor, rng.randint(-1, max(-1, w.prov._latest_cursor))])
+            if op == "PROVLATEST":
+                op = "provcur %d" % w.prov._latest_cursor
             w.apply(op)
             lines.append(op)
             obs.append(w.observe())
@@ -385,13 +394,38 @@ def run_em_sequence(cfg, storage_kind, ops, rng):
         w.close()
 
 
+EM_SCENARIOS = [[], ["corrupt"], ["delcursor"], ["delcursor", "PROVLATEST"], ["expire 0"], ["delwalk"], ["corrupt", "delwalk"],
+                ["delcursor", "delwalk", "PROVLATEST"]]
+
+
+def em_enumerated(tier, seed):
+    """systematic part: after a first run and some user operations, every way of losing / keeping the cursor x a do() killed before
+    each of its effects (docrash k) or finally stopped after k deliveries (dostop k) x what the next engine does - so that every
+    stop point inside the re-seeding paths (error handler, first-init without a cursor) is compared with the model on every run"""
+    cuts = ["do"] + ["docrash %d" % k for k in range(7)] + ["dostop %d" % k for k in range(5)]
+    out = []
+    n = 0
+    for cfg in "pb":
+        for scen in EM_SCENARIOS:
+            for cut in cuts:
+                n += 1
+                if tier == "quick" and (n + seed) % 2:
+                    continue
+                ops = ["start", "setroot", "do", "USER", "USER", "do", "stop", "USER"] + scen + ["start", cut]
+                ops += ([] if cut == "do" else ["start"]) + ["do", "USER", "do"]
+                out.append((cfg, ops))
+    return out
+
+
 def em_correspondence(seed, tier):
     rng = rng_for(seed, "c06em")
     nseq = 400 if tier == "quick" else 4000
     all_lines, all_obs, starts = [], [], []
+    todo = [(cfg, ops, "mock" if i % 2 else "sqlite") for i, (cfg, ops) in enumerate(em_enumerated(tier, seed))]
     for i in range(nseq):
         cfg, ops = gen_em_sequence(rng, rng.randint(4, 30))
-        kind = "mock" if i % 3 else "sqlite"
+        todo.append((cfg, ops, "mock" if i % 3 else "sqlite"))
+    for cfg, ops, kind in todo:
         starts.append((len(all_lines), cfg, kind))
         lines, obs, _ = run_em_sequence(cfg, kind, ops, rng)
         all_lines += lines
@@ -456,6 +490,7 @@ class RestartRun:
         self.lost_pending = set()    # sides whose cursor was lost at a restart and that have not yet reset + walked
         self.quiet_same = {}         # folded rel path -> tag of the files equal on both sides at the last quiescence
         self.quiet_marks = set()     # positions in rec.ops at which the engine was quiet
+        self.stops_with_walk_pending = 0
         self.fresh_names = 0
         w = self.w
 
@@ -474,27 +509,9 @@ class RestartRun:
     def close(self):
         self.w.close()
 
-    # ---- the window of the known finding (need_walk only in memory while marker and integer cursor are stored) ------
-    def in_window(self):
-        if self.w.cs is None:
-            return False
-        st = self.w.storage
-        for i, em in enumerate(self.w.cs.emgrs):
-            if em.need_walk:
-                crow = list(st.read_all(self.tags[i][0]).values())
-                wrow = st.read_all(self.tags[i][1])
-                if wrow and crow and isinstance(crow[0], int):
-                    return True
-        return False
-
-    def leave_window(self):
-        """runs intake steps until no side is inside the window (the walk completes within one intake step)"""
-        for _ in range(6):
-            if not self.in_window():
-                return True
-            for x in "LR":
-                self.rec.engine(x)
-        return not self.in_window()
+    # ---- coverage: was a walk still pending when the engine was stopped? (the window of the former finding) -----------------
+    def walk_pending(self):
+        return self.w.cs is not None and any(em.need_walk for em in self.w.cs.emgrs)
 
     def key(self, rel):
         return rel.lower() if self.fold else rel
@@ -573,8 +590,7 @@ class RestartRun:
         return lost or self.unsettled()
 
     def stop(self, graceful=True):
-        if not self.leave_window():
-            raise HarnessError("could not leave the window")
+        self.stops_with_walk_pending += 1 if self.walk_pending() else 0
         tl, tr = self.w.tree(0), self.w.tree(1)
         trk = {self.key(k): v for k, v in tr.items()}
         # "already synchronised": equal on both sides now AND already so when the engine was last quiet (a file written
@@ -647,7 +663,7 @@ class RestartRun:
         return out
 
     def summary(self, extra=None):
-        d = case_summary(self.rec, {"storage": self.w.storage_kind, "events": self.log})
+        d = case_summary(self.rec, {"storage": self.w.storage_kind, "events": self.log, "stops_with_walk_pending": self.stops_with_walk_pending})
         if rowid_signature(self.w):
             d["signature"] = KF_ROWID
         d["schedule"] = self.rec.trace[-400:]
@@ -665,7 +681,9 @@ def pick_variant(rng):
     """(variant, new provider objects?, cursor lost?).  When the restart loses a cursor (row deleted / rejected) the
     property promises only that everything *created or modified* reaches the other side (a walk cannot see deletions,
     nor - on path-id providers - the old name of a rename): such a segment therefore starts from quiescence and
-    contains only creations and modifications, so that exact convergence is what the property demands."""
+    contains only creations and modifications, so that exact convergence is what the property demands.
+    (Re-creating a deleted name inside such a segment is handled since the walk de-duplication fix and is exercised by the
+    enumerated `recreate` corner; the shared Recorder keeps random name reuse out of all engine families - C01's finding.)"""
     v = rng.choice(VARIANTS)
     return v, rng.random() < 0.6, v in LOST
 
@@ -927,6 +945,44 @@ def case_tempfile(fl, storage, rng, side, kind, graceful, variant):
         run.close()
 
 
+def case_recreate(fl, storage, rng, side, kind, variant, fresh_pos):
+    """corner (lifted with the fix of walk-dedup-ignores-existence): an object is deleted, the deletion is synchronised, the
+    engine goes down, the object is re-created at the same path (a folder, a file with the same bytes, or a file with new bytes) and
+    the restart loses / keeps the cursor of that side: the re-creation must reach the other side"""
+    run = RestartRun(fl, storage, rng)
+    rec, w = run.rec, run.w
+    rec.avoid_reuse = False
+    try:
+        t0 = rec.fresh()
+        rec.user(side, "create", "/keep", tag=rec.fresh())
+        if kind == "dir":
+            rec.user(side, "mkdir", "/a")
+        else:
+            rec.user(side, "create", "/a", tag=t0)
+        if not run.quiesce():
+            return [("hard", None, run.summary({"failure": "base did not go quiet"}), None)]
+        rec.user(side, "delete", "/a")
+        if not run.quiesce():
+            return [("hard", None, run.summary({"failure": "engine did not go quiet within the step cap"}), None)]
+        run.stop(rng.random() < 0.7)
+        if kind == "dir":
+            rec.user(side, "mkdir", "/a")
+        elif kind == "same":
+            rec.user(side, "create", "/a", tag=t0)
+        else:
+            rec.user(side, "create", "/a", tag=rec.fresh())
+        run.restart(variant, fresh_pos)
+        if not run.quiesce():
+            return [("hard", None, run.summary({"failure": "engine did not go quiet within the step cap after the restart"}), None)]
+        tl, tr = w.tree(0), w.tree(1)
+        sm = run.summary({"family": "recreate"})
+        return [("line", "c01 | %s | %s" % (enc_tree(tl, run.fold), enc_tree(tr, run.fold)), sm, (fl, storage, "recreate", side, kind, variant, fresh_pos)),
+                ("line", "c02 | %s | %s | %s" % (" ".join(rec.ledger), enc_tree(tl), enc_tree(tr)), sm, None),
+                ("line", "c06a | %s | %s" % (enc_tree(tl), enc_tree(tr)), sm, None)]
+    finally:
+        run.close()
+
+
 def case_special_contents(fl, storage, rng, variant, fresh_pos, midsync):
     """corner: an empty file and two files with equal bytes, created while the engine is down (or just before a mid-sync stop);
     contents are not version tags here, so only C01's relation (and no artefacts) is checked"""
@@ -1038,6 +1094,15 @@ def engine_cases(tier, seed, families=None, n=None):
             storage = "sqlite" if (j + k) % 2 else "mock"
             for item in case_tempfile(fl, storage, rng, sd, kind, g, v):
                 yield item
+    rc = [(sd, kind, v % sd, f) for sd in (0, 1) for kind in ("dir", "same", "new")
+          for v in ("corrupt%d", "delcur%d", "expired%d", "intact%.0d", "delwalk%d") for f in (True, False)]
+    for j, fl in enumerate(flavours):
+        combos = rc if tier != "quick" else [rc[(seed * 13 + j * 7 + t * 17) % len(rc)] for t in range(4)]
+        for k, (sd, kind, v, f) in enumerate(combos):
+            v = "intact" if v.startswith("intact") else v
+            storage = "sqlite" if (j + k) % 2 else "mock"
+            for item in case_recreate(fl, storage, rng, sd, kind, v, f):
+                yield item
     sp = [(v, f, m) for v in ("intact", "delcur0", "delcur1", "corrupt0", "corrupt1", "delwalk1") for f in (True, False) for m in (True, False)]
     for j, fl in enumerate(flavours):
         combos = sp if tier != "quick" else [sp[(seed * 7 + j * 5 + t * 11) % len(sp)] for t in range(3)]
@@ -1139,13 +1204,13 @@ def replay_rejected(storage):
             st.update(run.tags[1][0], "garbage", eid)
         w.new_engine()
         rec.engine("R")
-        in_window = run.in_window()
+        pending = run.walk_pending()
         w.drop_engine()
         w.new_engine()
         nw = w.cs.emgrs[1].need_walk
         q = rec.quiesce()
         lost = "/b" not in w.tree(0)
-        return (q and lost and not nw and in_window), run.summary({"need_walk_after_restart": nw, "stop_was_in_window": in_window})
+        return (lost or not q), run.summary({"need_walk_after_restart": nw, "walk_pending_at_stop": pending, "quiet": q})
     finally:
         run.close()
 
@@ -1180,7 +1245,7 @@ def replay_missing(storage):
         nw = w.cs.emgrs[1].need_walk
         q = rec.quiesce()
         lost = "/b" not in w.tree(0)
-        return (q and lost and not nw), run.summary({"need_walk_after_restart": nw})
+        return (lost or not q), run.summary({"need_walk_after_restart": nw, "quiet": q})
     finally:
         run.close()
 
@@ -1190,6 +1255,7 @@ def replay_dedup(storage):
     new provider objects; START; quiesce.  True = /a never reaches the right side."""
     run = RestartRun("path-oidf", storage, random.Random(1))
     rec, w = run.rec, run.w
+    rec.avoid_reuse = False
     try:
         rec.user(0, "mkdir", "/a")
         q1 = rec.quiesce()
@@ -1199,7 +1265,7 @@ def replay_dedup(storage):
         rec.user(0, "mkdir", "/a")
         run.restart("corrupt0", True)
         q3 = rec.quiesce()
-        return (q1 and q2 and q3 and "/a" in w.tree(0) and "/a" not in w.tree(1)), run.summary()
+        return (not (q1 and q2 and q3) or "/a" not in w.tree(1)), run.summary()
     finally:
         run.close()
 
@@ -1214,6 +1280,7 @@ def replay_rowid(storage):
     q; L: rename /d -> /b; q; L: create /d; steps.  True = ValueError escapes the steps and the engine never goes quiet."""
     run = RestartRun("path-oidf", "sqlite", random.Random(5))
     rec, w = run.rec, run.w
+    rec.avoid_reuse = False
     try:
         rec.user(0, "create", "/d", tag=1)
         rec.quiesce()
@@ -1236,10 +1303,10 @@ def replay_rowid(storage):
 
 
 def em_replay_witness():
-    """the Lean counterexamples `lostAfterRejected` / `lostAfterMissing`, action by action, on the real EventManager and on the
-    model: both must agree, and end with need_walk False, nothing delivered, cursor = 1"""
+    """the Lean regression witnesses `formerRejected` / `formerMissing` (the former counterexamples), do() by do(), on the real
+    EventManager and on the model: both must agree, and the last do() must walk ("lost" = it did not)"""
     seqs = {KF_REJECTED: ["start", "setroot", "do", "stop", "USER1", "corrupt", "start", "do", "stop", "start", "do"],
-            KF_MISSING: ["start", "setroot", "do", "stop", "USER1", "delcursor", "provcur 1", "start", "docrash 1", "start", "do"]}
+            KF_MISSING: ["start", "setroot", "do", "stop", "USER1", "delcursor", "provcur 1", "start", "docrash 2", "start", "do"]}
     out = {}
     for ident, ops in seqs.items():
         w = EmWorld("p", "mock")
@@ -1257,7 +1324,7 @@ def em_replay_witness():
                 obs.append(w.observe())
             model = run_driver("event", lines)
             last = obs[-1]
-            out[ident] = {"agree": obs == model, "lost": ("nw=F" in last and "fresh=-" in last and last.startswith("cur=1 ")),
+            out[ident] = {"agree": obs == model, "lost": "w" not in last.split("fresh=")[1].split()[0].split(","),
                           "lines": lines, "implementation": obs[-1], "model": model[-1]}
         finally:
             w.close()
@@ -1273,7 +1340,7 @@ def replay_known(res):
             hit, summ = fn(storage)
             hits.append((hit, summ))
         if ident not in wit:
-            wit[ident] = {"agree": True, "lost": True}
+            wit[ident] = {"agree": True, "lost": all(h for h, _ in hits)}
         shows = all(h for h, _ in hits) and wit[ident]["lost"]
         if ident in opens:
             if shows:
@@ -1334,6 +1401,8 @@ def em_oracle(cfg, storage_kind, ops, rng):
                 continue
             if op == "PROVCUR":
                 op = "provcur %d" % rng.choice([-1, w.prov._latest_cursor, rng.randint(-1, max(-1, w.prov._latest_cursor))])
+            if op == "PROVLATEST":
+                op = "provcur %d" % w.prov._latest_cursor
             lines.append(op)
             t = op.split()[0]
             if t in ("stop", "dostop", "docrash") and w.em is not None:
@@ -1377,7 +1446,7 @@ def em_oracle(cfg, storage_kind, ops, rng):
                     crow = w.storage.read_all(w.ctag)
                     if not crow and not w.em.need_walk:
                         return {"failure": "new EventManager found no stored cursor and did not set need_walk", "sequence": lines}
-        if in_window_stop or cfg == "n":
+        if cfg == "n":
             return None
         if w.em is None:
             w.apply("start")
@@ -1408,6 +1477,11 @@ def em_oracle(cfg, storage_kind, ops, rng):
 
 def em_search(seed, tier):
     rng = rng_for(seed, "c06search")
+    for i, (cfg, ops) in enumerate(em_enumerated("thorough", seed)):
+        hit = em_oracle(cfg, "mock" if i % 2 else "sqlite", ops, rng)
+        if hit:
+            hit["cfg"] = cfg
+            return hit
     for i in range(400 if tier == "quick" else 6000):
         cfg, ops = gen_em_sequence(rng, rng.randint(4, 24))
         hit = em_oracle(cfg, "mock" if i % 3 else "sqlite", ops, rng)
@@ -1467,6 +1541,7 @@ def run(res, tier, seed, proof_broken, replay):
         "em_operation_histogram": dict(op_hist), "em_state_histogram": dict(shape),
         "engine_obligations_by_family": dict(fam_hist), "engine_restart_variants": dict(variants), "engine_storage": dict(storages),
         "engine_runs": len([k for k in e_keys if k]), "traces_validated_against_impl": len(e_lines),
+        "stops_with_walk_pending": sum(sm.get("stops_with_walk_pending", 0) for sm, k in zip(e_sums, e_keys) if k),
         "witness_replays": {k: {"agree": v["agree"], "lost": v["lost"]} for k, v in wit.items()},
         "fingerprints": fingerprints(FP_SPEC),
     })
@@ -1476,8 +1551,8 @@ def run(res, tier, seed, proof_broken, replay):
         "harness determinisation (sequential ids, virtual clock, insertion-ordered sets) selects one admissible behaviour of the real program",
         "engine families/flavours restricted to those measured reliable on the pinned engine; after a restart that lost a cursor only creations and "
         "modifications are generated until that side has reset its cursor and walked (the property promises nothing about deletions then)",
-        "stops are never placed inside the window of the known finding (need_walk in memory, walk marker and integer cursor stored): exactly the "
-        "hypothesis of walk_survives_restart_partial",
+        "stops are placed anywhere between engine steps, also while a walk is still pending (`stops_with_walk_pending` in the coverage): the "
+        "window of the former findings need-walk-not-persisted/* is closed by the repair and no longer avoided",
         "not modelled in Event.lean: reconnect/token/temporary errors, id-less events, root-missing detection, entry contents (walk de-duplication)",
     ]
     broken = list(proof_broken)
